@@ -566,7 +566,9 @@ def run_check(mod, tier, seed, replay=None):
             "wall_s": round(time.time() - t0, 2),
             "violations": violations,
         }
-        write_json(os.path.join(VERIF, "evidence", pid + ".json"), ev)
+        # VERIF_EVIDENCE_DIR: used when a check is pointed at a scratch copy of baize (BAIZE_REPO), so that the
+        # evidence of the real tree is not overwritten by a trial run
+        write_json(os.path.join(os.environ.get("VERIF_EVIDENCE_DIR") or os.path.join(VERIF, "evidence"), pid + ".json"), ev)
     print("%s %s seed=%d: theorems %d/%d, cases %d (non-trivial distinct %d), mismatches %d, kernel-checked %d, "
           "oracle failures %d, known %d, %.1fs -> %s" % (
               pid, tier, seed, proofs["discharged"], proofs["obligations"], len(cases), len(ntriv), len(mism), nk,
